@@ -11,6 +11,7 @@ import Driver.Padding
 import Driver.Record
 import Driver.X509
 import Driver.SM2Model
+import Driver.X509Sign
 open Gmsm
 
 def dispatch (toks : List String) : String :=
@@ -18,6 +19,9 @@ def dispatch (toks : List String) : String :=
   | some r => r
   | none =>
     match Driver.sm2ModelDispatch toks with
+    | some r => r
+    | none =>
+    match Driver.x509signDispatch toks with
     | some r => r
     | none =>
     match toks with
